@@ -1175,7 +1175,12 @@ bool StepScript(ScriptExecutionEnvironment& env, CScript::const_iterator& pc, CS
                         valtype& vchSig = stacktop(-isig-k);
                         if (sigversion == SigVersion::BASE) {
                             int found = FindAndDelete(scriptCode, CScript() << vchSig);
-                            if (found > 0 && (flags & SCRIPT_VERIFY_CONST_SCRIPTCODE))
+                            // a signature mocked (--pretend-valid) for one of these keys necessarily sits in the script when there is no transaction
+                            bool mocked = false;
+                            if (pretend_valid_map.count(vchSig)) {
+                                for (int j = 0; j < nKeysCount; j++) mocked |= stacktop(-ikey-j) == pretend_valid_map.at(vchSig);
+                            }
+                            if (found > 0 && (flags & SCRIPT_VERIFY_CONST_SCRIPTCODE) && !mocked)
                                 return set_error(serror, SCRIPT_ERR_SIG_FINDANDDELETE);
                         }
                     }
